@@ -699,6 +699,49 @@ def hedge_lazy(ctx, block):
     ctx.outcome(("lazy", tag, w["ul"], w.get("kind"), H, round(float(hedges[0].sum()), 6)))
 
 
+@family
+def hedge_dropout(ctx, block):
+    """Models with an ACTIVE stochastic layer (Dropout; hedger in training mode, its mode when freshly built
+    and after fit(validation=False)): whatever mask is drawn, the position reported for the final index is
+    the one held over the last step.  (Adaptedness is not asserted here: the masks differ from row to row.)
+    The draws are made inside a forked RNG; nothing is compared against a particular mask."""
+    from pfhedge.nn import Hedger, MultiLayerPerceptron
+    w = block["world"]
+    T = w["T"]
+    site = "Hedger.compute_hedge"
+    world = hw.build_world(w)
+    N, H = world.N, world.H
+    inputs = ["moneyness", "time_to_maturity", "max_moneyness"] + (["prev_hedge"] if block["prev"] else [])
+    tag = ("stepwise" if block["prev"] else "vectorised") + (":autograd" if block.get("grad") else "")
+    desc = (f"MultiLayerPerceptron(activation=Sequential(ReLU(), Dropout(0.5))) in training mode, inputs={inputs} "
+            f"autograd={'on' if block.get('grad') else 'off'} {w['ul']}/{w.get('kind')} H={H}")
+    with torch.random.fork_rng():
+        torch.manual_seed(9000 + ctx.seed)
+        act = torch.nn.Sequential(torch.nn.ReLU(), torch.nn.Dropout(0.5))
+        model = MultiLayerPerceptron(3 + (H if block["prev"] else 0), H, n_layers=2, n_units=8,
+                                     activation=act).to(world.dtype)
+        hedger = Hedger(model, inputs)
+        hedger.train()
+        ok, hedge = _guard(ctx, site, f"dropout:{tag}", desc, block,
+                           lambda: hedger.compute_hedge(world.d, hedge=world.hedge), grad=bool(block.get("grad")))
+    if not ok:
+        return
+    ctx.add("traces_validated_against_impl", N)
+    moving = (hedge[..., -2] != hedge[..., -3]).any(-1) if T >= 3 else (hedge[..., -2] != 0).any(-1)
+    ctx.tick(N, nontrivial=int(moving.sum()))
+    if tuple(hedge.shape) != (N, H, T):
+        ctx.violation(site, f"dropout:shape:{tag}", f"hedge shape {tuple(hedge.shape)} ({desc})", block=block)
+        return
+    same = hedge[..., -1] == hedge[..., -2]
+    if not same.all():
+        r = int((~same).any(-1).nonzero()[0])
+        ctx.violation(site, f"dropout:trades_at_maturity:{tag}",
+                      f"hedge[..., -1] != hedge[..., -2] on {int((~same).any(-1).sum())}/{N} paths ({desc})",
+                      observed={"path": world.spot[r].tolist(), "hedge": hedge[r].tolist()},
+                      expected="last column equals the position held over the last step", block=block)
+    ctx.outcome(("dropout", tag, w["ul"], H, int(moving.sum()) > 0))
+
+
 def _pl_at_maturity(ctx, block, hedge, tag, desc, grad, exact):
     """compute_pl / compute_portfolio / compute_loss (scripted simulate) in the same autograd mode, on
     fresh objects, against pl() of the hedge with the last column replaced by the held position
@@ -809,6 +852,11 @@ def model_specs(H, listed):
                     {"model": "identity", "inputs": [{"f": "time_to_maturity"}], "mode": mode},
                     {"model": "first", "inputs": [{"f": "moneyness"}], "mode": mode},
                     {"model": "first", "inputs": [{"f": "max_moneyness"}, {"f": "variance"}], "mode": mode}]
+    # a ModuleOutput wrapping a module that mixes the TIME dimension, in step-by-step hedgers only (there the
+    # module is only ever fed one step)
+    tm = {"f": "module_output", "module": "time_mix", "inputs": [{"f": "moneyness"}, {"f": "max_moneyness"}]}
+    out += [{"model": "linear", "inputs": [{"f": "time_to_maturity"}, tm], "mode": "stepwise"},
+            {"model": "linear", "inputs": [tm, {"f": "prev_hedge"}], "mode": "vectorised"}]
     # state-dependent by themselves
     out += [
         {"model": "ww"},
@@ -893,7 +941,8 @@ def run(ctx):
              "with hedger.eval() and with a user's post-processing forward hook (lot rounding, position limit). "
              "hedge_cross: hedging instrument on another stock with a series 1 or 2 steps shorter. hedge_shared_feature: "
              "one ModuleOutput(prev_hedge) object shared by two hedgers on one re-scripted derivative. hedge_lazy: "
-             "first vs second evaluation of a never-fitted lazy MLP. Worlds include user subclasses of the "
+             "first vs second evaluation of a never-fitted lazy MLP. hedge_dropout: last column == previous column for "
+             "a Dropout-bearing MLP in training mode (any mask). Worlds include user subclasses of the "
              "primaries overriding volatility/variance and variance scripts with negative and zero entries. Non-trivial = nodes below which the quantity takes a different value later on some leaf "
              "(peeking would be observable) + leaves whose position moves before maturity")
     ctx.assume("models that couple paths (batch normalisation) are outside the property and are not generated")
@@ -1068,6 +1117,8 @@ def run(ctx):
         sblocks.append({"world": wsb})
         for prev in (True, False):
             zblocks.append({"world": wsb, "prev": prev})
+    dblocks = [{"world": z["world"], "prev": z["prev"], "grad": g} for z in zblocks for g in (False, True)]
+    ctx.info["dropout_blocks"] = len(dblocks)
     ctx.info["shared_feature_blocks"] = len(sblocks)
     ctx.info["lazy_blocks"] = len(zblocks)
     # the same Hedger object on several trees in sequence
@@ -1098,6 +1149,8 @@ def run(ctx):
             ctx.run("hedge_shared_feature", b)
         for b in zblocks:
             ctx.run("hedge_lazy", b)
+        for b in dblocks:
+            ctx.run("hedge_dropout", b)
     else:
         ctx.run_parallel("feature_tree", fblocks)
         ctx.run_parallel("hedge_tree", hblocks)
@@ -1105,3 +1158,4 @@ def run(ctx):
         ctx.run_parallel("hedge_cross", cblocks)
         ctx.run_parallel("hedge_shared_feature", sblocks)
         ctx.run_parallel("hedge_lazy", zblocks)
+        ctx.run_parallel("hedge_dropout", dblocks)
